@@ -49,6 +49,10 @@ def runOps : Tx → List String → List String → List String
       | none => ("bad-op" :: acc).reverse
     | some "f" => let (tx', o) := tx.sendRemaining; runOps tx' ts (showOut o :: acc)
     | some "rs" => runOps tx.reset ts ("ok" :: acc)     -- `Channel.Reset`: the queued message is abandoned
+    -- `SendRemainingPackets` with a cancelled context: the context check in front of the first packet
+    -- fails (nothing is written); with nothing queued the loop does not run and the call succeeds; the
+    -- deferred `Reset` runs either way
+    | some "fc" => runOps tx.reset ts ((if tx.q.queue.isEmpty then "-" else "err:-") :: acc)
     | some "ps" =>
       match f with
       | [_, n] => match n.toNat? with
